@@ -5,6 +5,6 @@ spec = unit.parse_spec(sys.argv[1])
 fn = sys.argv[2]
 out = '/tmp/vxtry/%s_probe.rs' % spec.name
 res = unit.build_unit(spec, out, probe_fn=fn)
-r = verus.run_verus(out, res['linemap'], res['info'])
+r = verus.run_verus(out, res['linemap'], res['info'], extra_args=spec.verus_args)
 print("verified", r.verified, "errors", r.errors, r.compile_errors, r.undecided)
 for f in r.failures: print("FAIL", f['key'][:150])
